@@ -104,16 +104,18 @@ def run(repo, rep):
         # X2
         p2 = []
         if cls == 'AssociationRequester':
-            news = [(e, s) for e, s in c.log if e.kind == 'store' and False]
-            # MaximumLengthSubItem(self.max_pdu_length) must be created before any adoption store
-            created = None
-            for n in ast.walk(f.node):
-                if isinstance(n, ast.Call) and norm(n.func).endswith('MaximumLengthSubItem'):
-                    created = n
-            if created is None or [norm(a) for a in created.args][:1] != ['self.max_pdu_length']:
-                p2.append('the request does not announce self.max_pdu_length')
-            elif adopts and created.lineno > min(e.line for e, s in adopts):
-                p2.append('the limit is announced after the peer\'s value was adopted')
+            # the value announced is the term the maximum-length sub-item of the PDU that is sent was built with: terms
+            # are taken at construction time, so 'self.max_pdu_length' means the limit as configured, before any adoption
+            sent = [(e, s) for e, s in c.log if e.kind == 'dul.send' and e.args and is_token(e.args[0])
+                    and token_class(e.args[0]) == 'AAssociateRqPDU']
+            if not sent:
+                p2.append('no A-ASSOCIATE-RQ is sent')
+            for e, s in sent:
+                announced = [v_ for t_, f_, v_ in s.heap if t_.startswith('NEW_MaximumLengthSubItem') and f_ == '@maximum_length_received']
+                if not announced:
+                    p2.append('the request does not announce self.max_pdu_length')
+                elif any(v_ != 'self.max_pdu_length' for v_ in announced):
+                    p2.append('the request announces %s, not the own (configured) limit' % sorted(set(announced))[0])
         else:
             echoes = [(e, s) for e, s in c.log if e.kind == 'store' and e.callee.endswith('.maximum_length_received')]
             if not echoes:
